@@ -92,7 +92,9 @@ def maskPos : List Bool → Nat → List Nat
 /-- positions addressed by a selection on an array of length `n` (`IndexError` otherwise) -/
 def selPositions (n : Nat) : Sel → Except Err (List Nat)
   | .idx is => mapE (fun i => match normIdx n i with | some k => .ok k | none => .error .index) is
-  | .mask bs => if bs.length = n then .ok (maskPos bs 0) else .error .index
+  | .mask bs =>
+    -- numpy accepts a boolean index of length 0 on an axis of any length (it selects nothing)
+    if bs.length = n ∨ bs = [] then .ok (maskPos bs 0) else .error .index
 
 def gatherE (vs : List Int) (ks : List Nat) : Except Err (List Int) :=
   mapE (fun k => match vs[k]? with | some v => .ok v | none => .error .index) ks
